@@ -1081,11 +1081,17 @@ def attribute_signatures(tree: ast.Module) -> dict:
             # the attribute itself is abstracted, and so is every other private attribute in the statement (several
             # attributes may have been renamed at once)
             nodes = [(x, x.attr) for x in ast.walk(st) if isinstance(x, ast.Attribute) and (x.attr == a or (x.attr.startswith('_') and not x.attr.startswith('__')))]
+            # ... and every plain name but `self` (locals may have been renamed in the same edit)
+            names = [(x, x.id) for x in ast.walk(st) if isinstance(x, ast.Name) and x.id != 'self']
             for x, v in nodes:
                 x.attr = '_A_' if v == a else '_'
+            for x, v in names:
+                x.id = '_n'
             texts.append(ast.dump(st))
             for x, v in nodes:
                 x.attr = v
+            for x, v in names:
+                x.id = v
         out[a] = hashlib.sha256(('|'.join(sorted(texts)) + '#' + ';'.join(f'{f}:{c}' for f, c in sorted(oc))).encode()).hexdigest()[:16]
     # rank of the first occurrence among the attributes of the module (tie-break between attributes with one signature,
     # e.g. the two conditions of a queue)
@@ -1640,3 +1646,22 @@ def canonical_suppress(tree: ast.AST) -> int:
     if k[0]:
         ast.fix_missing_locations(tree)
     return k[0]
+
+
+def canonicalize(tree: ast.AST) -> None:
+    """the canonical forms (vii)-(ix), (xvi)-(xxvi), in the one order every user of them applies"""
+    deannotate(tree)
+    canonical_imports(tree)
+    augment(tree)
+    for _ in range(3):  # nested regions: the walk sees a block before its rewritten children
+        if not canonical_regions(tree):
+            break
+    canonical_while(tree)
+    canonical_operands(tree)
+    canonical_tests(tree)
+    canonical_queue_calls(tree)
+    canonical_dicts(tree)
+    canonical_args(tree)
+    canonical_suppress(tree)
+    recompose(tree)
+    expand_ternary_assignments(tree)
